@@ -527,17 +527,23 @@ def static_reference_expansion(chk):
     pointer casts only - and nothing else in the expansion may receive or write through that address: the object then lives for
     ever and is never replaced, which is the justification of the unsafe call the caller never sees."""
     from rules import C17
-    key = "R:static_reference-expansion"
-    chk.obligation(key, "the Reference built by static_reference! points at the expansion's own static item")
-    facts, err = C17.todyn_facts((), None)
+    facts, err = C17.todyn_facts(("lockstatics",), None)
+    for wname, macro, ctor_name in (("make", "static_reference", "from_ptr"), ("make_rw", "static_rw_lock_reference", "from_ptr_rw_lock"),
+                                    ("make_mutex", "static_mutex_reference", "from_ptr_mutex")):
+        _static_expansion_one(chk, facts, err, wname, macro, ctor_name)
+
+
+def _static_expansion_one(chk, facts, err, wname, macro, ctor_name):
+    key = "R:%s-expansion" % macro
+    chk.obligation(key, "the Reference built by %s! points at the expansion's own static item" % macro)
     if facts is None:
-        chk.violation("C16.R", key + ":build", "the downstream witness using static_reference! does not compile: %s" % err[-500:])
+        chk.violation("C16.R", key + ":build", "the downstream witness using %s! does not compile: %s" % (macro, err[-500:]))
         return
-    fs = [f for f in facts["fns"] if f["name"] == "make" and "body" in f and "stat" in f.get("pretty", f["did"])]
+    fs = [f for f in facts["fns"] if f["name"] == wname and "body" in f and "stat" in f.get("pretty", f["did"])]
     if len(fs) != 1:
-        raise AnchorMissing("witness stat::make")
+        raise AnchorMissing("witness stat::" + wname)
     body = fs[0]["body"]
-    chk.analysed("rrtk_todyn_witness::stat::make (expansion of static_reference!)")
+    chk.analysed("rrtk_todyn_witness::%s (expansion of %s!)" % (wname, macro))
     defs = {}
     for bb in body["blocks"]:
         for st in bb["stmts"]:
@@ -547,10 +553,10 @@ def static_reference_expansion(chk):
         if t["k"] == "call" and not t["dest"]["p"]:
             defs.setdefault(t["dest"]["l"], []).append({"k": "callresult", "fn": t["func"].get("fn", {}).get("pretty", "?")})
     calls = [bb["term"] for bb in body["blocks"] if bb["term"]["k"] == "call"]
-    ctor = [t for t in calls if t["func"].get("ck") == "fn" and t["func"]["fn"]["name"] == "from_ptr" and "Reference" in t["func"]["fn"]["pretty"]]
+    ctor = [t for t in calls if t["func"].get("ck") == "fn" and t["func"]["fn"]["name"] == ctor_name and "Reference" in t["func"]["fn"]["pretty"]]
     ok = True
     if len(ctor) != 1:
-        chk.violation("C16.R", key + ":shape", "the expansion calls Reference::from_ptr %d times, expected once" % len(ctor))
+        chk.violation("C16.R", key + ":shape", "the expansion of %s! calls Reference::%s %d times, expected once" % (macro, ctor_name, len(ctor)))
         return
     statics = set()
 
@@ -571,8 +577,10 @@ def static_reference_expansion(chk):
                 continue
             if k == "use" and rv["op"]["k"] in ("move", "copy") and not rv["op"]["place"]["p"]:
                 r = origin(rv["op"]["place"]["l"], seen)
-            elif k == "rawptr" and [x["k"] for x in rv["place"]["p"]] == ["deref"]:
+            elif k in ("rawptr", "ref") and [x["k"] for x in rv["place"]["p"]] == ["deref"]:
                 r = origin(rv["place"]["l"], seen)
+            elif k in ("rawptr", "ref") and not rv["place"]["p"]:
+                r = "the address of a local temporary (_%d: a value, not a static item - it dies with the expanding function's frame)" % rv["place"]["l"]
             elif k == "cast" and rv["op"]["k"] in ("move", "copy") and not rv["op"]["place"]["p"] and rv.get("ty", {}).get("k") == "ptr":
                 r = origin(rv["op"]["place"]["l"], seen)
             elif k == "callresult":
@@ -586,8 +594,8 @@ def static_reference_expansion(chk):
     why = "a constant" if a["k"] == "const" else ("a projection" if a["place"]["p"] else origin(a["place"]["l"], frozenset()))
     chk.evaluated(1, nontrivial=(key, "origin"))
     if why is not None:
-        chk.violation("C16.R", key + ":origin", "static_reference! hands Reference::from_ptr a pointer that is not the address of its own static item: it is %s; the "
-                      "object behind an earlier Reference from the same call site can then be replaced or dropped while that Reference is alive" % why,
+        chk.violation("C16.R", key + ":origin", "%s! hands Reference::%s a pointer that is not the address of its own static item: it is %s; the "
+                      "object behind a Reference from this call site can then be replaced, dropped or overwritten while that Reference is alive" % (macro, ctor_name, why),
                       file=loc(ctor[0]["span"]))
         ok = False
     # nothing else touches the static
@@ -612,13 +620,13 @@ def static_reference_expansion(chk):
     for bb in body["blocks"]:
         for st in bb["stmts"]:
             if st["k"] == "assign" and st["place"]["p"] and st["place"]["l"] in derived:
-                chk.violation("C16.R", key + ":store", "the expansion of static_reference! writes through the address of its static at run time", file=loc(st["span"]))
+                chk.violation("C16.R", key + ":store", "the expansion of %s! writes through the address of its static at run time" % macro, file=loc(st["span"]))
                 ok = False
         t = bb["term"]
         if t["k"] == "call" and t is not ctor[0]:
             for a in t["args"]:
                 if a["k"] in ("move", "copy") and a["place"]["l"] in derived:
-                    chk.violation("C16.R", key + ":escape", "the expansion of static_reference! passes the address of its static to %s as well" % t["func"].get("fn", {}).get("pretty", "?"),
+                    chk.violation("C16.R", key + ":escape", "the expansion of %s! passes the address of its static to %s as well" % (macro, t["func"].get("fn", {}).get("pretty", "?")),
                                   file=loc(t["span"]))
                     ok = False
     chk.evaluated(len(body["blocks"]))
